@@ -976,6 +976,58 @@ def rule_no_park_after_close(ctx):
         raise AnalysisBroken("only %d park sites on drained lists found" % n)
 
 
+# ---------------------------------------------------------------------------
+# R8: a handle lookup takes its reference before the id-map lock is released
+
+
+def rule_find_holds(ctx):
+    r = ctx.rule("C10.R8", "T7", "handles stay valid or are refused: every nni_X_find looks the id up and takes the reference (count "
+                 "increment / nni_refcnt_hold) inside one critical section, and hands the object out only on that path -- with "
+                 "the reference taken after the unlock a concurrent close can free the object in between", floor=5)
+    prog = ctx.prog
+    n = 0
+    for name in sorted(k for k, v in REFS.items() if k.endswith("_find")):
+        cands = [f for f in prog.functions if f.name == name and not f.cfg_failed]
+        if not cands:
+            raise AnalysisBroken("%s not in the build" % name)
+        f = cands[0]
+        n += 1
+        gets = [c for c in f.calls("nni_id_get")]
+        if not gets:
+            raise AnalysisBroken("%s no longer looks the id up with nni_id_get" % name)
+        holds = []
+        for t in f.sites():
+            nd = t.node
+            if nd.get("k") == "un" and nd.get("op") == "++" and nd["e"].get("k") == "mem" and "ref" in nd["e"].get("f", ""):
+                holds.append((t.b, t.i))
+            if nd.get("k") == "asg" and nd.get("op") == "+=" and nd["lhs"].get("k") == "mem" and "ref" in nd["lhs"].get("f", ""):
+                holds.append((t.b, t.i))
+            if nd.get("k") == "call" and nd.get("fn") in ("nni_refcnt_hold", "nni_pipe_hold", "nni_sock_hold"):
+                holds.append((t.b, t.i))
+        outs = [t for t in f.assigns() if t.node["lhs"].get("k") == "un" and t.node["lhs"].get("op") == "*"]
+
+        def is_unlock(e):
+            return e is not None and any(m.get("k") == "call" and m.get("fn") == UNLOCK for m in walk(e))
+        bad = None
+        if not holds:
+            bad = "takes no reference"
+        else:
+            g = gets[0]
+            inside = f.reach((g.b, g.i + 1), blocked=lambda b, i, e: is_unlock(e))
+            if not any(h in inside for h in holds):
+                bad = "takes the reference only after the id-map lock was released"
+            elif not outs or not all(f.dominated_by((t.b, t.i), blocked=lambda b, i, e: (b, i) in holds) for t in outs):
+                bad = "can hand the object out on a path that took no reference"
+        if bad:
+            ctx.fail(r, f, "%s %s" % (name, bad), f.line,
+                     "%s %s: between the lookup and the reference a concurrent close can release the object, and the caller "
+                     "then works on freed state instead of getting NNG_ECLOSED / NNG_ENOENT" % (name, bad))
+        else:
+            r.ob(f, "lookup and reference in one critical section; the object is handed out only with the reference")
+    if n < 5:
+        raise AnalysisBroken("only %d handle lookups found" % n)
+
+
 def rule_closeall(ctx):
     """C10.R5: a close / fini function looks at every parked-operation field it handles on every path"""
     from .. import guards as G
@@ -1025,6 +1077,7 @@ def run(ctx):   # noqa: F811
     ctx.guard(rule_last_touch)
     ctx.guard(rule_unlinked)
     ctx.guard(rule_no_park_after_close)
+    ctx.guard(rule_find_holds)
     ctx.guard(rule_wakeups)
     from . import c02
     ctx.guard(c02.rule_a7)
